@@ -138,7 +138,7 @@ def _work(task) -> core.Part:
                         return p
     elif sweep == "words":
         have = [n for n in ("list_ver_id", "meter_id", "meter_type") if n in names]
-        for t in cosemx.word_texts():
+        for t in cosemx.word_texts() + cosemx.edge_texts():
             for fld in have:
                 v = base_values(names)
                 v[fld] = t
